@@ -338,7 +338,7 @@ class Runner:
                             self.lines.append('R skip'); continue
                         ev = self.slots[seg[1]]
                         v = env.run(until=ev)
-                        self.notes.append(('until-event', ev.processed, getattr(ev, '_ok', None), v is ev._value or v == ev._value))
+                        self.notes.append(('until-event', ev.processed, getattr(ev, '_ok', None), v is ev._value or v == ev._value, ev.defused, self.lab(ev)))
                     else: v = env.run()
                     self.lines.append(f'R {self.fmt_val(v)} @{self.now()}')
                 except BaseException as x:
